@@ -24,7 +24,10 @@ int main(int argc, char** argv) {
     std::string uri;
     { std::scoped_lock lock(node_mutex); uri = protocol::encode_manifest(node.store_chunk(chunk, ChunkData{'x', 'y'}, std::chrono::seconds(120), std::nullopt)); }
     daemon::ControlClient client("127.0.0.1", port, std::nullopt);
-    std::printf("sending FETCH with an empty OUT value\n"); std::fflush(stdout);
+    std::printf("sending FETCH with an empty OUT value, a malformed manifest, an unwritable OUT path, and a huge TTL\n"); std::fflush(stdout);
+    (void)client.send("FETCH", {{"MANIFEST", "eph://!!!!"}, {"OUT", "/tmp/c35-x"}});
+    (void)client.send("FETCH", {{"MANIFEST", uri}, {"OUT", "/proc/nonexistent-dir/file"}});
+    (void)client.send("STORE", {{"TTL", "99999999999999999999999999"}}, std::vector<std::uint8_t>{1, 2});
     const auto r = client.send("FETCH", {{"MANIFEST", uri}, {"OUT", ""}});
     std::this_thread::sleep_for(std::chrono::milliseconds(300));
     const auto ping = client.send("PING");
